@@ -113,6 +113,15 @@ func splitFunc(ctx *flags.Context) error {
 
 			sort.Ints(heads)
 
+			if top == gts.Circular && len(heads) == 1 {
+				seq = gts.Rotate(seq, -heads[0])
+				seq = gts.WithTopology(seq, gts.Linear)
+				if _, err := writer.WriteSeq(seq); err != nil {
+					return ctx.Raise(err)
+				}
+				break
+			}
+
 			splits := make([]int, len(heads)+2)
 			if top == gts.Circular {
 				splits[0] = heads[len(heads)-1]
